@@ -127,6 +127,13 @@ PROPS = {
         "oracle": True,
         "tie": "hand-written model (Model/Table.lean MakeTable, buildTable) tied by A-table; cluster-level instance tied directly on stable vocabularies",
     },
+    "C17": {
+        "lean_modules": ["RosedVerif.Props.C17"],
+        "theorems": [],
+        "groups": ["A-options", "A-options2"],
+        "oracle": True,
+        "tie": "hand-written model (Model/Editor.lean Options.withDefaults; every XOpts in Model/Ops.lean) tied by A-options, A-options2",
+    },
     "C18": {
         "lean_modules": ["RosedVerif.Props.C18"],
         "theorems": [],
